@@ -220,7 +220,7 @@ RefreshRoundStep(e) ==
     /\ Chk("C18", "at-most-one-round-per-6s-plus-one-per-bootstrap-completion (20 min window)", l, ok(1200000))
     /\ Chk("C18", "a-round-is-caused-by-the-refresh-timer-or-a-bootstrap-completion", l,
            nd.step.open /\ (nd.step.kind = "bootstrap" \/ (nd.step.kind = "timer" /\ nd.step.what = "TableRefresh")))
-    /\ Upd(e, [nd EXCEPT !.rounds = rounds]) /\ UNCHANGED G
+    /\ Upd(e, [nd EXCEPT !.rounds = rounds, !.step = IF nd.step.open THEN nd.step @@ [cursor |-> e.cursor] ELSE nd.step]) /\ UNCHANGED G
 
 \* ------------------------------------------------------------------ C15: bootstrap and its waiters
 BootWaitStep(e) ==
@@ -491,6 +491,17 @@ FirstRoundDrift(nd, pre, ln) ==
             Drift("first-round-of-a-search", ln,
                   {nd.lk[aid].q[t].dst : t \in {x \in DOMAIN nd.lk[aid].q : nd.lk[aid].q[x].at = nd.lk[aid].at}} = PredInitial(nd, pre, nd.lk[aid].target))
 
+\* the mechanism's prediction of a refresh round (refresh.rs continue_refresh): the first REFRESH_CONCURRENCY = 4 questionable, not
+\* recently requested contacts of the table walk towards the id with bit `cursor` flipped -- compared as DRIFT only
+PredRefresh(nd, tt, cursor) ==
+    LET walk == SelectSeq(Closest([tt EXCEPT !.self = nd.id], FlipBit160(nd.id, cursor % 160), now),
+                          LAMBDA c : Status(c, now) = QUEST /\ ~RecentlyRequested(c, now)) IN
+    [i \in 1..Min2(4, Len(walk)) |-> walk[i].addr]
+RefreshDrift(nd, st, pre, ln) ==
+    (st.open /\ "cursor" \in DOMAIN st) =>
+        LET fn == SelectSeq(st.sends, LAMBDA x : x.m.y = "q" /\ x.m.q = "find_node") IN
+        Drift("refresh-round-targets", ln, [i \in 1..Len(fn) |-> fn[i].dst] = PredRefresh(nd, pre, st.cursor))
+
 TableChecks(nd, tt, ln) ==
     /\ Chk("C11", "a-contact-that-always-answers-is-never-lost (every table dump)", ln, NeverLost(Rec[ln].node, nd, tt))
     /\ Chk("C08", "table-shape", ln, ShapeOK([tt EXCEPT !.self = nd.id], now))
@@ -520,6 +531,7 @@ HEndStep(e) ==
     /\ (isIncoming /\ Unsolicited(nd0, m)) => Chk("C12", "unsolicited-response-changes-no-contacts", l, RLiveHandles(post, now) = RLiveHandles(pre, now))
     /\ (Len(e.ch[2]) > 0 => TableChecks(nd0, post, l))
     /\ FirstRoundDrift(nd0, pre, l)
+    /\ RefreshDrift(nd0, st, pre, l)
     /\ Chk("C14", "node-keeps-running-while-handles-exist", l, e.running \/ ~st.open)
     /\ Upd(e, [nd2 EXCEPT !.t = post, !.step = [open |-> FALSE],
                          !.lk = [a \in DOMAIN @ |-> IF @[a].fresh THEN [@[a] EXCEPT !.fresh = FALSE] ELSE @[a]]])
